@@ -264,8 +264,17 @@ func (c *ctComp) Run(args []string) string {
 		return sortedBracket(out)
 	case "children":
 		var out []string
-		for k := range t.Get(decPath(args[1])).Children() {
+		ch := t.Get(decPath(args[1])).Children()
+		for k := range ch {
 			out = append(out, encStr(k))
+		}
+		// the mapping Children hands out is the caller's own (a snapshot): filtering or editing it must not
+		// change what the tree stores (seeded changes c09_seed10 / c10_seed8 returned the node's own map)
+		for k := range ch {
+			delete(ch, k)
+		}
+		if ch != nil {
+			ch["scribbled"] = nil
 		}
 		return sortedBracket(out)
 	case "isbranch":
